@@ -1,4 +1,5 @@
 import Hive.Proofs.DListObs
+import Hive.Gen.C10_Skel
 /-!
 # C10 — `ds.List` behaves exactly like a reference doubly-linked list (Go's `container/list`)
 
@@ -133,5 +134,63 @@ theorem C10_old_moveBefore_witness :
     (oldMoveBefore s false 5 3).seq false = [3, 4, 5] ∧
     (sstep (abs s) (.moveBefore false 5 3)).1.lst false = [5, 3, 4] := by
   decide
+
+/-! ## regenerated synchronisation skeletons of the thread-safe wrapper
+
+`Hive/Gen/C10_Skel.lean` is regenerated from ds/list_impl.go on every run (checks/c10.py `regen`).  The
+sequential theorems above are about the inner `list`; they carry over to `threadSafeList` because every method of
+the wrapper is **one** lock with a deferred unlock of the wrapper's only mutex around **exactly one** call of the
+inner list's method of the same name — the write lock for everything that mutates, the read lock for the
+observers, never released in between, never a call back into the wrapper (whose own lock would be re-acquired). -/
+section skeletons
+open Hive.Gen.C10Skel
+
+/-- `lock; defer unlock; call t.list.<m>[; return]` -/
+def wrapped (lock unlock m : String) (ret : Bool) : List String :=
+  [lock ++ " t.mutex", "defer " ++ unlock ++ " t.mutex", "call t.list." ++ m] ++ (if ret then ["return"] else [])
+
+theorem C10_skeleton_writers :
+    skel_threadSafeList_Init = wrapped "lock" "unlock" "Init" true ∧
+    skel_threadSafeList_PushFront = wrapped "lock" "unlock" "PushFront" true ∧
+    skel_threadSafeList_PushBack = wrapped "lock" "unlock" "PushBack" true ∧
+    skel_threadSafeList_Remove = wrapped "lock" "unlock" "Remove" true ∧
+    skel_threadSafeList_InsertBefore = wrapped "lock" "unlock" "InsertBefore" true ∧
+    skel_threadSafeList_InsertAfter = wrapped "lock" "unlock" "InsertAfter" true ∧
+    skel_threadSafeList_MoveToFront = wrapped "lock" "unlock" "MoveToFront" false ∧
+    skel_threadSafeList_MoveToBack = wrapped "lock" "unlock" "MoveToBack" false ∧
+    skel_threadSafeList_MoveBefore = wrapped "lock" "unlock" "MoveBefore" false ∧
+    skel_threadSafeList_MoveAfter = wrapped "lock" "unlock" "MoveAfter" false := by
+  decide
+
+theorem C10_skeleton_readers :
+    skel_threadSafeList_Front = wrapped "rlock" "runlock" "Front" true ∧
+    skel_threadSafeList_Back = wrapped "rlock" "runlock" "Back" true ∧
+    skel_threadSafeList_ForEach = wrapped "rlock" "runlock" "ForEach" true ∧
+    skel_threadSafeList_ForEachReverse = wrapped "rlock" "runlock" "ForEachReverse" true ∧
+    skel_threadSafeList_Range = wrapped "rlock" "runlock" "Range" false ∧
+    skel_threadSafeList_RangeReverse = wrapped "rlock" "runlock" "RangeReverse" false ∧
+    skel_threadSafeList_Values = wrapped "rlock" "runlock" "Values" true ∧
+    skel_threadSafeList_Len = wrapped "rlock" "runlock" "Len" true := by
+  decide
+
+/-- The whole-list pushes: the same shape with the self-push test (`other == t`, then read through the inner
+list) between the lock and the one delegated call. -/
+theorem C10_skeleton_pushlists :
+    skel_threadSafeList_PushBackList
+      = ["lock t.mutex", "defer unlock t.mutex", "if{", "}if", "call t.list.PushBackList"] ∧
+    skel_threadSafeList_PushFrontList
+      = ["lock t.mutex", "defer unlock t.mutex", "if{", "}if", "call t.list.PushFrontList"] := by
+  decide
+
+/-- One mutex, one embedded inner list; `len` is a plain int guarded by that mutex; the element's pointers are
+atomics (read by `Prev`/`Next`/`Value` without the lock). -/
+theorem C10_skeleton_type_shapes :
+    skel_type_threadSafeList = ["struct", "embedded *list[T]", "mutex sync.RWMutex"] ∧
+    skel_type_list = ["struct", "root listElement[T]", "len int"] ∧
+    skel_type_listElement = ["struct", "next atomic.Pointer[listElement[T]]", "prev atomic.Pointer[listElement[T]]",
+      "list atomic.Pointer[list[T]]", "value atomic.Pointer[T]"] := by
+  decide
+
+end skeletons
 
 end Hive.DList
